@@ -287,6 +287,43 @@ func runC04(c *fw.Ctx) {
 		}
 	})
 
+	// every single byte 0x80..0xFF at every offset between the root brackets of ASCII hosts that carry blanks of every sort
+	// at every legal position (a lone high byte in ASCII surroundings is always ill-formed UTF-8, whatever a byte-wise
+	// classification such as "is it a space in Latin-1" may think of it)
+	sweepHosts := []string{
+		`[1, 2 ,"a b" , [ ] ,{ "k" : 1 , "l" : [ true ] } , null ]`,
+		`{ "a" : 1 ,"b": [ 1 , 2 ], "c" : { } , "d":"x y" , "e" : -0.5e+3 }`,
+		`[ ]`, `{ }`, `[ [ [ 1 ] ] ]`, `{ "k" : { "k" : [ { } ] } }`,
+	}
+	blanks := []string{" ", "\t", "\n", "\r\n", "  ", " \n\t "}
+	c.Cases("high-byte-sweep", len(sweepHosts)*len(blanks), true, func(i int, r *rng.R) {
+		host := strings.ReplaceAll(sweepHosts[i/len(blanks)], " ", blanks[i%len(blanks)])
+		parse, name := doParseList, "ParseList"
+		if host[0] == '{' {
+			parse, name = doParseObject, "ParseObject"
+		}
+		if o := parse(host); !o.NilE {
+			c.Count("sweep_hosts_not_accepted") // strings with a raw line break are no JSON: such hosts carry no verdict
+			return
+		}
+		c.Distinct("sweep " + host)
+		for pos := 1; pos < len(host); pos++ {
+			for b := 0x80; b <= 0xff; b++ {
+				doc := host[:pos] + string([]byte{byte(b)}) + host[pos:]
+				c.MarkInput(doc)
+				o := parse(doc)
+				c.Count("high_byte_injections")
+				if !checkOutcome(c, name, doc, o) {
+					return
+				}
+				if o.NilE {
+					c.Violate("ill-formed-utf8-accepted", fmt.Sprintf("%s on %s (byte 0x%02x injected at offset %d)", name, quoteBytes(doc), b, pos), "error", "accepted as "+spec.Trunc(o.Canon, 300))
+					return
+				}
+			}
+		}
+	})
+
 	// the same inputs parsed by several goroutines at once give the outcomes they give sequentially
 	c.Cases("concurrent", c.N(40, 2000), false, func(i int, r *rng.R) {
 		g := r.Range(2, 10)
@@ -491,6 +528,73 @@ func runC04(c *fw.Ctx) {
 		}
 		if !sameOutcome(of, oo) {
 			c.Violate("parsefile-differs-from-parseobject", "file content "+quoteBytes(text), fmt.Sprintf("ParseObject: err=%q tree=%s", oo.Err, spec.Trunc(oo.Canon, 300)), fmt.Sprintf("ParseFile: err=%q tree=%s", of.Err, spec.Trunc(of.Canon, 300)))
+		}
+	})
+	// the path is the operating system's business: whatever os.ReadFile(path) reads is "the file's bytes", for every
+	// spelling of a path (dot segments, doubled separators, '..' behind a symbolic link to a directory elsewhere,
+	// relative paths, names with blanks / line breaks / wildcard and escape characters)
+	pf := filepath.Join(dir, "pathforms")
+	mk := func(rel, content string) {
+		full := filepath.Join(pf, rel)
+		os.MkdirAll(filepath.Dir(full), 0o755)
+		os.WriteFile(full, []byte(content), 0o644)
+	}
+	os.RemoveAll(pf)
+	mk("real/t.json", `{"where":"real"}`)
+	mk("real/deep/t.json", `{"where":"deep"}`)
+	mk("other/t.json", `{"where":"other"}`)
+	mk("q/t.json", `{"where":"decoy next to the link"}`)
+	mk("t.json", `{"where":"top"}`)
+	os.Symlink(filepath.Join("..", "real", "deep"), filepath.Join(pf, "q", "link")) // q/link -> real/deep
+	os.Symlink(filepath.Join(pf, "other"), filepath.Join(pf, "real", "abs"))        // real/abs -> other (absolute target)
+	os.Symlink("t.json", filepath.Join(pf, "real", "alias.json"))                   // link to a file
+	os.Symlink("alias.json", filepath.Join(pf, "real", "alias2.json"))              // chain
+	os.Symlink("missing.json", filepath.Join(pf, "real", "dangling.json"))          // dangling
+	odd := []string{"a b.json", " lead.json", "trail.json ", "tab\there.json", "line\nbreak.json", "%41.json", "~", "back\\slash.json", "*.json", "?.json", "$HOME.json", ".hidden", "file.JSON",
+		string(rune(0xfc)) + ".json", "e" + string(rune(0x301)) + ".json", "..json", "...", "-", "a:b.json", "[x].json", "{y}.json", "q\"uote.json", "#frag.json", "with%20space.json"}
+	for k, name := range odd {
+		mk(filepath.Join("odd", name), fmt.Sprintf(`{"odd":%d}`, k))
+	}
+	forms := []string{
+		filepath.Join(pf, "real", "t.json"),
+		pf + "/real/./t.json", pf + "/real//t.json", pf + "//real/t.json", pf + "/real/../real/t.json", pf + "/./real/./deep/../t.json",
+		pf + "/q/link/../t.json", // through the link: real/t.json, lexically: q/t.json
+		pf + "/q/link/../../other/t.json", pf + "/q/link/t.json", pf + "/q/link/../deep/../../q/link/t.json",
+		pf + "/real/abs/../t.json", // through the link: the top t.json, lexically: real/t.json
+		pf + "/real/abs/t.json", pf + "/real/alias.json", pf + "/real/alias2.json", pf + "/real/dangling.json",
+		pf + "/real/t.json/", pf + "/real/t.json/.", pf + "/real/t.json/..", pf + "/real/missing/../t.json", pf + "/q/link/../missing.json",
+		pf + "/REAL/t.json", pf + "/real/T.JSON", " " + pf + "/real/t.json", pf + "/real/t.json ", pf + "/real/t.json\n",
+	}
+	if wd, err := os.Getwd(); err == nil {
+		if rel, err := filepath.Rel(wd, filepath.Join(pf, "real", "t.json")); err == nil {
+			forms = append(forms, rel, "./"+rel, filepath.Dir(rel)+"/../real/t.json")
+		}
+		if rel, err := filepath.Rel(wd, filepath.Join(pf, "q", "link")); err == nil {
+			forms = append(forms, rel+"/../t.json")
+		}
+	}
+	for _, name := range odd {
+		forms = append(forms, filepath.Join(pf, "odd")+"/"+name)
+	}
+	c.Cases("pathforms", len(forms), true, func(i int, r *rng.R) {
+		path := forms[i]
+		c.Distinct("pathform " + path)
+		want, rerr := os.ReadFile(path)
+		of := doParseFile(path)
+		c.Count("pathform_calls")
+		if !checkOutcome(c, "ParseFile", path, of) {
+			return
+		}
+		if rerr != nil {
+			c.Count("pathform_unreadable")
+			if of.NilE {
+				c.Violate("parsefile-unreadable-path-accepted", "ParseFile("+quoteBytes(path)+"), which os.ReadFile cannot read: "+rerr.Error(), "error", "accepted as "+spec.Trunc(of.Canon, 200))
+			}
+			return
+		}
+		oo := doParseObject(string(want))
+		if !sameOutcome(of, oo) {
+			c.Violate("parsefile-differs-from-parseobject", "ParseFile("+quoteBytes(path)+"); os.ReadFile of that path gives "+quoteBytes(string(want)), fmt.Sprintf("ParseObject: err=%q tree=%s", oo.Err, spec.Trunc(oo.Canon, 300)), fmt.Sprintf("ParseFile: err=%q tree=%s", of.Err, spec.Trunc(of.Canon, 300)))
 		}
 	})
 	c.Cases("badpaths", 6, true, func(i int, r *rng.R) {
